@@ -2,7 +2,9 @@
 use super::*;
 use std::time::Duration;
 
-static mut VNOW: u64 = 0;
+// (statics have distinctive non-zero initial values and are explicitly initialised: Kani 0.68 can alias a
+// constant allocation with a static whose initial bytes are identical, see c16_io.rs)
+static mut VNOW: u64 = 0x281;
 fn vnow() -> u64 {
     unsafe { VNOW }
 }
